@@ -115,6 +115,12 @@ def r1b(repo, run):
                 runs = [x for x in p.events[:i] if x.kind == 'call' and x.callee in ('exec', 'eval') and len(x.args) >= 2]
                 G = runs[-1].args[1].text if runs else None
                 removed = G is not None and any((x.kind == 'store' and x.target == 'del %s[%s]' % (G, WNAME)) or (tr.is_call(x, attr='pop', recv=G) and x.args and x.args[0].text == WNAME) for x in p.events[:i])
+                persistent = any(pol and t.endswith('.persistent_namespace') for t, pol in e.facts)
+                multi = any(pol and t.startswith('len(') and t.rstrip().endswith('> 1') for t, pol in e.facts)
+                reused = G is not None and G.startswith('sys.modules[')
+                if not persistent or not multi or reused:
+                    verdicts.add(('bad', 'R1b', 'the namespace is published in sys.modules on a path where %s: only a multi-line node with persistent_namespace publishes, and only a namespace it built itself' % (
+                        'the node is not known to be persistent' if not persistent else ('the code is not known to have more than one line' if not multi else 'it was taken from sys.modules in the first place'))))
                 if removed:
                     verdicts.add(('ok', 'R1b', 'wrapper removed from the namespace before it is cached'))
                 else:
@@ -510,11 +516,14 @@ def check(repo, run, tier):
     g(r5, repo, run)
     g(r6, repo, run)
     g(unitrules.config_entry, repo, run, 'C12.R9')
+    g(unitrules.eval_context_init, repo, run, 'C12.R1')
     g.done()
 
 
 def mutants(repo):
     return [
+        Mutant('publish-condition-negated', lambda r: in_func(r, 'EvalNode.ayns.on_evaluate_impl', "if len(lines) > 1 and self.persistent_namespace and not from_module:", "if not (len(lines) > 1 and self.persistent_namespace and not from_module):"), ['C12.R1b']),
+        Mutant('caller-symbols-dropped', lambda r: in_func(r, 'EvalContext.__init__', "            self._eval_symbols.update(eval_symbols)\n", "            pass\n"), ['C12.R1']),
         Mutant('build-drops-caller-context', lambda r: in_func(r, 'Config.build', "return Config(b.build(), eval_ctx=eval_ctx)", "return Config(b.build())"), ['C12.R9']),
         Mutant('symbols-leak-into-defaults', lambda r: in_func(r, 'EvalContext.get_eval_symbols', "        return self._eval_symbols", "        merged = EvalContext.get_default_eval_symbols()\n        merged.update(self._eval_symbols)\n        return merged"), ['C12.R1']),
         Mutant('context-shares-default-symbols', lambda r: in_func(r, 'EvalContext.__init__', "self._eval_symbols = copy.copy(EvalContext._default_eval_symbols)", "self._eval_symbols = EvalContext._default_eval_symbols"), ['C12.R1']),
